@@ -12,6 +12,13 @@ WarmProbes == {ProbeNo(s) : s \in {"kpc", "kiloparsec", "kft", "kfoo", "Mfoo", "
 \* names handed to define_unit, one per reading class: plain new name (quux, foo), existing table symbol (pc), listed
 \* alias (parsec), prefix + prefixable symbol (kpc: cold in a custom registry, warm in the default one or after Unit),
 \* prefix word + alias (kiloparsec), prefix + non-prefixable symbol (kft), prefix + user symbol (kfoo)
+\* strings that leave ONLY a memo entry behind (no derived row): the table symbol itself, a listed alternative of a
+\* prefixable symbol, a listed alternative of a non-prefixable symbol - neither alternative contains its canonical symbol
+\* as text.  Used BEFORE an edit of the canonical symbol (add / remove / modify follow in every history of two calls) they
+\* make "what the alternative spelling denotes afterwards" depend on how the edit treats what was memoised: the final
+\* observation demands the reading under the CURRENT contents (C14_EditStr / EditNs / EditAgree; after remove: rejected).
+\* Only on custom registries: Unit(s) without registry= never consults the memo.
+MemoProbes == {ProbeNo(s) : s \in {"pc", "parsec", "foot"}}
 DefineNames == {"quux", "pc", "parsec", "kpc", "kiloparsec", "kft", "kfoo"}
 CustomNext ==
            \/ \E k \in {"pc", "ft", "foo"}, pfx \in BOOLEAN : Add(k, "2", pfx) /\ hist' = Append(hist, [op |-> "add", k |-> k, m |-> "2", pfx |-> pfx, p |-> 0])
@@ -19,6 +26,7 @@ CustomNext ==
            \/ Add("kfoo", "7", FALSE) /\ hist' = Append(hist, [op |-> "add", k |-> "kfoo", m |-> "7", pfx |-> FALSE, p |-> 0])
            \/ \E k \in {"pc", "ft", "foo", "kfoo"} : Remove(k) /\ hist' = Append(hist, [op |-> "remove", k |-> k, m |-> "", pfx |-> FALSE, p |-> 0])
            \/ \E k \in {"pc", "ft", "foo"} : Modify(k, "4") /\ hist' = Append(hist, [op |-> "modify", k |-> k, m |-> "4", pfx |-> FALSE, p |-> 0])
+           \/ \E p \in MemoProbes : Construct(p) /\ hist' = Append(hist, [op |-> "unit", k |-> "", m |-> "", pfx |-> FALSE, p |-> p])
            \/ AddSymbols /\ hist' = Append(hist, [op |-> "addsymbols", k |-> "", m |-> "", pfx |-> FALSE, p |-> 0])
 Next == /\ Len(hist) < MaxLen
         /\ \/ \E sym \in DefineNames : Define(sym, "7", FALSE) /\ hist' = Append(hist, [op |-> "define", k |-> sym, m |-> "7", pfx |-> FALSE, p |-> 0])
@@ -29,7 +37,9 @@ Spec == EditInit /\ [][Next]_evars
 \* model level: probes whose resolution on the transcription differs from the reading under the caller's view
 ModelStale == {p \in PIdx : PeekStr(p, lut, MemoRead)[1] \notin RefDens(user, p)}
 ModelStaleNs == LET r == NsOf(lut) IN IF r.ok /\ kind = "custom" THEN {p \in PIdx : r.ns[p].k = "unit" /\ r.ns[p] \notin RefDens(user, p)} ELSE {}
-Export == PrintT(ToJson([tag |-> "HIST", kind |-> kind, h |-> hist,
+\* tch: the history changed the table (model level) - the sweep over all documented names is replayed in full only then
+\* (otherwise only the rows present in the table are compared: the table is the initial one)
+Export == PrintT(ToJson([tag |-> "HIST", kind |-> kind, h |-> hist, tch |-> (lut # (IF kind = "default" THEN TableWarm ELSE Table0)),
                          stale |-> {[s |-> ProbeSeq[p].s, layer |-> LayerModel(user, p, ModelRows(lut))] : p \in ModelStale \cup ModelStaleNs}]))
 \* beyond MaxLen: a state cover one step deeper - VIEW hides the history, TLC keeps one witness history per distinct
 \* registry state (kind, caller's view, table, memo, last result) and the witnesses of length Deep are exported
